@@ -47,14 +47,22 @@ def worker(job):
     seen = set()
     try:
         for c, line, m in zip(cases, lines, model):
-            obs, rec = dagcase.run_real(c, wd)
+            obs, recs = dagcase.run_real(c, wd)
+            rec = recs[0]
             rep['evaluations'] += 1
             if obs != m:
                 rep['disagreements'].append(dict(case=c, line=line, real=obs, model=m, diff=first_diff(obs, m)))
-            viol, nt = dagmon.monitor(c, rec)
-            for pid, vs in viol.items():
-                for v in vs[:3]:
-                    rep['violations'].append(dict(property=pid, what=v, case=c, line=line, real=obs))
+            nt = {}
+            for r in recs:
+                viol, nt_r = dagmon.monitor(dagmon.phase_case(c, r), r)
+                for pid, flag in nt_r.items():
+                    nt[pid] = nt.get(pid, False) or flag
+                for pid, vs in viol.items():
+                    for v in vs[:3]:
+                        rep['violations'].append(dict(property=pid, what=('second run: ' if r['phase'] else '') + v,
+                                                      case=c, line=line, real=obs))
+            if len(recs) > 1:
+                bump('two_runs_on_same_objects')
             key = line
             for pid, flag in nt.items():
                 if flag and (pid, key) not in seen:
